@@ -364,3 +364,39 @@ End Dyn.
 Lemma class_static_is_lexical fuel c globals calls :
   run_class fuel c globals calls = run_class_dyn fuel c globals calls.
 Proof. unfold run_class, run_class_dyn. apply run_calls_dyn. Qed.
+
+(* ------------------------------------------------------------------ position of the var block; two instances *)
+
+Definition skipped (d : topdecl) : bool := match d with TImport | TConst | TType => true | _ => false end.
+
+Lemma class_fields_decl_found pre s rest :
+  forallb skipped pre = true -> class_fields_decl (pre ++ TVar s :: rest) = Some s.
+Proof.
+  induction pre as [|d t IH]; simpl; auto. intros H. apply andb_prop in H as [Hd Ht].
+  destruct d; try discriminate; auto.
+Qed.
+
+Lemma class_struct_any_order pre s rest :
+  forallb skipped pre = true -> class_struct (pre ++ TVar s :: rest) = class_fields s.
+Proof. intros H. unfold class_struct. now rewrite class_fields_decl_found. Qed.
+
+Lemma run_objs_equiv c fuel calls : forall fa fb gl tr acc,
+  run_objs ClassForm c fuel calls fa fb gl tr acc = run_objs ExplicitForm (desugar_class c) fuel calls fa fb gl tr acc.
+Proof.
+  induction calls as [|[o [m v]] t IH]; intros fa fb gl tr acc; simpl; auto.
+  destruct (Q_all c fuel) as (_ & Qc & _). rewrite <- Qc.
+  destruct (call_method ClassForm c fuel m v _) as [[r st1]| |]; auto. destruct o; apply IH.
+Qed.
+
+Lemma run_objs_dyn c fuel calls : forall fa fb gl tr acc,
+  run_objs ClassForm c fuel calls fa fb gl tr acc = dyn_objs c fuel calls fa fb gl tr acc.
+Proof.
+  induction calls as [|[o [m v]] t IH]; intros fa fb gl tr acc; simpl; auto.
+  destruct (D_all c fuel) as (_ & Dc & _). rewrite Dc.
+  destruct (dyn_call c fuel m v _) as [[r st1]| |]; auto. destruct o; apply IH.
+Qed.
+
+Lemma class_equiv_two fuel c globals calls : run2_class fuel c globals calls = run2_explicit fuel c globals calls.
+Proof. apply run_objs_equiv. Qed.
+Lemma class_lexical_two fuel c globals calls : run2_class fuel c globals calls = run2_dyn fuel c globals calls.
+Proof. apply run_objs_dyn. Qed.
